@@ -298,6 +298,19 @@ def explore_shard(acc, shard):
                 acc.outcome("measure with more than 192 rows")
                 if fails:
                     report(acc, layer, {"kind": "text", "text": text}, fails)
+        # note data of more than 2^20 characters (blank padding / 4000 measures): the same decoding
+        for label, sections, pad in (("two measures and 2^20 trailing blanks", [[["10", "01"], ["0M", "20", "30", "01"]]], " " * (1 << 20)),
+                                     ("two players and 2^20 trailing blanks", [[["10", "01"]], [["01", "10"], ["11"]]], "\n" * (1 << 20))):
+            text = N.render(sections) + pad
+            core.guard(acc, {"kind": "text", "text": text[:60], "label": label})
+            fails = check_text(text, N.intended_notes(sections), 2, deep=False)
+            acc.count("evaluations")
+            acc.count("states")
+            acc.count("transitions")
+            acc.count("nontrivial")
+            acc.outcome("note data longer than 2^20 characters")
+            if fails:
+                report(acc, layer, {"kind": "text", "text": N.render(sections), "padding": repr(pad[:1]) + " x 2^20"}, fails)
         acc.sample(layer, {"rows_per_measure": [256, 384, 768, 20, 7]})
     elif kind == "W":
         layer = "K wide rows (1..16 columns, one note walked)"
@@ -441,6 +454,7 @@ def explore(run):
     core.require(acc.outcomes["three player sections"] > 0, "no three-player text")
     core.require(acc.outcomes["CRLF text"] > 0, "no CRLF text")
     core.require(acc.outcomes["keysounded cell"] > 0, "no keysound")
+    core.require(acc.outcomes["note data longer than 2^20 characters"] > 0, "no megabyte text")
     core.require(acc.outcomes["row in which every cell carries a keysound"] > 0, "no fully keysounded row")
     core.require(acc.outcomes["indented keysounded row that is not the first of its measure"] > 0, "no indented keysounded row")
     core.require(acc.outcomes["sixteen columns"] > 0, "no 16-column row")
